@@ -279,3 +279,21 @@ Proof.
   unfold almost_zero, atol8, nfrac; rops; cbn [vx vy vz]. rewrite Rabs_R1.
   destruct (Rleb_spec 1 (3022314549036573 / 302231454903657293676544)) as [H|_]; [exfalso; lra|reflexivity].
 Qed.
+
+(* ---- tactic for tie lemmas that compare distances ----------------------------------------------------------------
+   Name every square root in goal and hypotheses, replace the roots of 0 (distance of a point to itself) by 0, merge
+   roots whose arguments are ring-equal (d_ij and d_ji, or the same squared length written in another order), record
+   0 <= d for the rest and forget their bodies: what remains is linear arithmetic over a few atoms. *)
+Ltac abstract_sqrts :=
+  repeat match goal with
+    | |- context [sqrt ?e] => let d := fresh "d" in set (d := sqrt e) in *
+    | H : context [sqrt ?e] |- _ => let d := fresh "d" in set (d := sqrt e) in *
+    end;
+  repeat match goal with d := sqrt ?e |- _ =>
+    let E := fresh "E" in
+    assert (E : d = 0) by (unfold d; replace e with 0 by ring; apply sqrt_0); clearbody d; subst d end;
+  repeat match goal with d1 := sqrt ?e1, d2 := sqrt ?e2 |- _ =>
+    let E := fresh "E" in
+    assert (E : d2 = d1) by (unfold d1, d2; f_equal; ring); clearbody d2; subst d2 end;
+  repeat match goal with d := sqrt ?e |- _ =>
+    let E := fresh "Hpos" in assert (E : 0 <= d) by (unfold d; apply sqrt_pos); clearbody d end.
